@@ -1291,7 +1291,7 @@ class Interp:
             view=("part" if b.view in ("whole", "part") else b.view) if (is_view and b.obj is not None) else None,
             cx=("%s[%s]" % (b.cx, unparse(n.slice))) if (b.cx and sv.cfg and len(b.cx) < 120) else None,
             dom=dict(b.dom),
-            extra=("sub", b, n.slice) if b.obj is not None else None,
+            extra=("sub", b, n.slice, sv) if b.obj is not None else None,
         )
         return res
 
@@ -1413,7 +1413,7 @@ class Interp:
         if key == "mesh_shape":
             nx, ny = self.mesh_syms("surface")
             return Val("tuple", items=(num(nx), num(ny), num(3)), cfg=True, cx="options['mesh_shape']", extra=("shape_of", (nx, ny, sp.Integer(3))))
-        return Val("cfgval", cfg=True, cx="options[%r]" % key, extra=("option", key))
+        return Val("cfgval", cfg=True, cx="options[%r]" % key, extra=("option", key), obj=("cfg", "options", key), view="whole")
 
     def mesh_syms(self, cx):
         suf = {"surface": "", "surfaces[i]": "_i", "surfaces[0]": "_0", "sections[i]": "_si", "sections[0]": "_s0", "section": "_s"}.get(cx)
